@@ -314,12 +314,13 @@ class SFTPServer(BaseSFTP, SubsystemHandler):
                 request_number, SFTP_FAILURE, "No supported hash types found"
             )
             return
-        if length == 0:
-            st = f.stat()
-            if not issubclass(type(st), SFTPAttributes):
-                self._send_status(request_number, st, "Unable to stat file")
-                return
-            length = st.st_size - start
+        st = f.stat()
+        if not issubclass(type(st), SFTPAttributes):
+            self._send_status(request_number, st, "Unable to stat file")
+            return
+        if length == 0 or start + length > st.st_size:
+            # the range ends at end of file
+            length = max(st.st_size - start, 0)
         if block_size == 0:
             block_size = length
         if block_size < 256:
@@ -337,16 +338,21 @@ class SFTPServer(BaseSFTP, SubsystemHandler):
             count = 0
             hash_obj = alg()
             while count < blocklen:
-                data = f.read(offset, chunklen)
+                data = f.read(offset, min(chunklen, blocklen - count))
                 if not isinstance(data, bytes):
                     self._send_status(
                         request_number, data, "Unable to hash file"
                     )
                     return
+                if len(data) == 0:
+                    # unexpected end of file (it shrank): stop with what we have
+                    break
                 hash_obj.update(data)
                 count += len(data)
-                offset += count
+                offset += len(data)
             sum_out += hash_obj.digest()
+            if count < blocklen:
+                break
 
         msg = Message()
         msg.add_int(request_number)
